@@ -40,7 +40,7 @@ CfgsRefresh == {CfgWith(a, rs, lrt) : a \in {"hmac", "jwt"}, rs \in {<<>>, <<"of
 CfgsPkce == {[BaseCfg EXCEPT !.pkce_all = pa, !.pkce_pub = pp, !.pkce_plain = pl] :
                pa \in BOOLEAN, pp \in BOOLEAN, pl \in BOOLEAN}
 CfgsExpiry == {[BaseCfg EXCEPT !.at = a, !.l_rt = lrt, !.l_code = 1, !.l_at = 2, !.l_par = 1, !.l_dev = 1] : a \in {"hmac", "jwt"}, lrt \in {3, -1}}
-CfgsIntrospect == {[BaseCfg EXCEPT !.at = a, !.no_rt_intro = n] : a \in {"hmac", "jwt"}, n \in BOOLEAN}
+CfgsIntrospect == {[BaseCfg EXCEPT !.at = a, !.no_rt_intro = n, !.l_at = 1] : a \in {"hmac", "jwt"}, n \in BOOLEAN}   \* short-lived access tokens: expired callers / expired inspected tokens are reachable
 CfgsDevice == {[BaseCfg EXCEPT !.store = s, !.rscopes = rs] : s \in {"mem", "contract"}, rs \in {<<>>, <<"offline">>}}
 CfgsPar == {[BaseCfg EXCEPT !.par_enf = e] : e \in BOOLEAN}
 
@@ -94,14 +94,15 @@ OpsC02 ==   \* client / redirect / lifetime binding; smuggled parameters; grant 
         rd \in {"sent"}} \cup {Authz(c, "code", <<"offline", "a">>, <<"a">>, <<>>, "omit", "none") : c \in {"A", "P"}} ELSE {})
   \cup (IF CanMint THEN
          {Redeem(c, a, k, rd, "none", xs, xa) : k \in Codes, c \in {"A", "B", "P"}, a \in {"ok", "bad", "none"},
-              rd \in {"same", "absent", "diff", "enc"}, xs \in {<<>>, <<"b", "openid">>}, xa \in {<<>>, <<AudB>>}} ELSE {})
+              rd \in {"same", "absent", "diff", "enc"}, xs \in {<<>>, <<"b", "openid">>}, xa \in {<<>>, <<AudB>>}}
+         \cup {Redeem("P", "hdr_victim", k, "same", "none", <<>>, <<>>) : k \in Codes} ELSE {})
   \cup (IF CanMint THEN {Refresh(st.S.rt[j].client, "ok", j, <<>>, <<>>) : j \in RTs} ELSE {})
   \cup TickOps
 
 Verifiers == {"none", "right", "wrong", "short", "long", "illegal", "other"}
 OpsC03 ==   \* PKCE: every sequence of attempts on a code
   (IF CanAuthz THEN {Authz(c, rt, <<"offline", "a">>, <<"offline", "a">>, <<>>, "sent", pk) :
-        c \in {"A", "P"}, rt \in {"code", "code_token"}, pk \in {"none", "S256", "plain", "plain_nm", "plain_short"}} ELSE {})
+        c \in {"A", "P"}, rt \in {"code", "code_token"}, pk \in {"none", "S256", "plain", "plain_nm", "plain_short", "s256lc"}} ELSE {})
   \cup (IF CanMint THEN {Redeem(Owner(k), "ok", k, "same", v, <<>>, <<>>) : k \in Codes, v \in Verifiers} ELSE {})
 
 OpsC04 ==   \* rotation and reuse over several grants of different origin
@@ -113,6 +114,7 @@ OpsC04 ==   \* rotation and reuse over several grants of different origin
   \cup (IF CanMint THEN {DevPoll("P", "ok", d) : d \in {x \in Devs : st.S.dev[x].ustate = "accepted" /\ st.S.dev[x].present}} ELSE {})
   \cup (IF CanMint THEN {Refresh(st.S.rt[j].client, "ok", j, <<>>, <<>>) : j \in RTs} ELSE {})
   \cup {Refresh(st.S.rt[j].client, "ok", j, <<>>, <<>>) : j \in {x \in RTs : ~RTActive(st, x)}}
+  \cup {Refresh(Other(st.S.rt[j].client), "ok", j, <<>>, <<>>) : j \in {x \in RTs : ~RTActive(st, x)}}   \* reuse presented by a stranger
   \cup {Revoke(st.S.rt[j].client, "ok", "rt", j, "rt") : j \in RTs}
   \cup TickOps
 
@@ -148,7 +150,7 @@ OpsC07 ==   \* expiry of every stateful credential kind
   \cup (IF CanMint THEN {Refresh(st.S.rt[j].client, "ok", j, <<>>, <<>>) : j \in {x \in RTs : st.S.rt[x].active /\ st.S.rt[x].present}} ELSE {})
   \cup (IF CanMint THEN {CCreds("A", "ok", <<"a">>, <<>>)} ELSE {})
   \cup (IF Count(st.S.dev) < MaxDev THEN {DevStart("P", "ok", Full, Full, <<>>)} ELSE {})
-  \cup {DevDecide(d, "accept") : d \in {x \in Devs : st.S.dev[x].ustate = "unused"}}
+  \cup {DevDecide(d, dec) : d \in {x \in Devs : st.S.dev[x].ustate = "unused"}, dec \in {"accept", "accept_fresh"}}
   \cup (IF CanMint THEN {DevPoll("P", "ok", d) : d \in {x \in Devs : st.S.dev[x].present}} ELSE {})
   \cup (IF Count(st.S.par) < MaxPar THEN {Push("A", "ok", "code", <<"offline", "a">>, <<>>, "sent", "none", 0)} ELSE {})
   \cup (IF CanAuthz THEN {UsePar("A", "own", u, "none") : u \in {x \in Pars : st.S.par[x].present}} ELSE {})
@@ -181,8 +183,8 @@ OpsC09 ==   \* introspection endpoint: callers, hints, required scopes, over sta
   \cup {Revoke(st.S.at[i].client, "ok", "at", i, "none") : i \in ATs}
   \cup {Introspect(c, caller, n, kind, t, h, need) :
           c \in {"A", "P"}, caller \in {"basic", "basic_bad", "none"}, n \in {0},
-          kind \in {"at"}, t \in ATs, h \in {"at", "rt", "none"}, need \in {<<>>, <<"a">>, <<"b">>}}
-  \cup {Introspect("A", "basic", 0, "rt", t, h, need) : t \in RTs, h \in {"at", "rt", "bad"}, need \in {<<>>, <<"offline">>, <<"b">>}}
+          kind \in {"at"}, t \in ATs, h \in {"at", "rt", "none"}, need \in {<<>>, <<"a">>, <<"b">>, <<"a", "b">>, <<"b", "a">>}}
+  \cup {Introspect("A", "basic", 0, "rt", t, h, need) : t \in RTs, h \in {"at", "rt", "bad"}, need \in {<<>>, <<"offline">>, <<"b">>, <<"offline", "b">>}}
   \cup {Introspect("A", caller, n, "at", t, "none", <<>>) : caller \in {"bearer", "self"}, n \in ATs, t \in ATs}
   \cup {Introspect("A", "bearer_rt", n, "at", t, "none", <<>>) : n \in RTs, t \in ATs}
   \cup {Introspect("A", "basic", 0, "unk", 0, "none", <<>>)}
@@ -190,10 +192,16 @@ OpsC09 ==   \* introspection endpoint: callers, hints, required scopes, over sta
 
 OpsC16 ==   \* device grant state machine
   (IF Count(st.S.dev) < MaxDev THEN {DevStart(c, "ok", sc, sc, <<>>) : c \in {"A", "P"}, sc \in {Full, <<"a">>}} ELSE {})
-  \cup {DevDecide(d, dec) : d \in Devs, dec \in {"accept", "reject"}}
+  \cup {DevDecide(d, dec) : d \in Devs, dec \in {"accept", "accept_fresh", "reject"}}
   \cup (IF CanMint THEN {DevPoll(c, a, d) : d \in Devs, c \in {"A", "P"}, a \in {"ok", "bad"}} ELSE {})
   \cup {DevPoll(st.S.dev[d].client, "ok", d) : d \in {x \in Devs : ~st.S.dev[x].present}}
   \cup (IF CanMint THEN {Refresh(st.S.rt[j].client, "ok", j, <<>>, <<>>) : j \in RTs} ELSE {})
+  \cup TickOps
+
+OpsC16b ==  \* the life of ONE device code over time: every decision, polls at every age, replay, by the owner
+  (IF Count(st.S.dev) < MaxDev THEN {DevStart("P", "ok", Full, Full, <<>>)} ELSE {})
+  \cup {DevDecide(d, dec) : d \in {x \in Devs : st.S.dev[x].ustate = "unused"}, dec \in {"accept", "accept_fresh", "reject"}}
+  \cup (IF CanMint THEN {DevPoll("P", "ok", d) : d \in Devs} ELSE {})
   \cup TickOps
 
 OpsC17 ==   \* pushed authorization requests
@@ -219,7 +227,7 @@ OpsC17b ==  \* the life of ONE request_uri over a longer history: use, second us
 Ops ==
   CASE Family = "C01" -> OpsC01 [] Family = "C01b" -> OpsC01b [] Family = "C02" -> OpsC02 [] Family = "C03" -> OpsC03
     [] Family = "C04" -> OpsC04 [] Family = "C04b" -> OpsC04b [] Family = "C05" -> OpsC05 [] Family = "C05b" -> OpsC05b [] Family = "C07" -> OpsC07
-    [] Family = "C08" -> OpsC08 [] Family = "C08b" -> OpsC08b [] Family = "C09" -> OpsC09 [] Family = "C16" -> OpsC16
+    [] Family = "C08" -> OpsC08 [] Family = "C08b" -> OpsC08b [] Family = "C09" -> OpsC09 [] Family = "C16" -> OpsC16 [] Family = "C16b" -> OpsC16b
     [] Family = "C17" -> OpsC17 [] Family = "C17b" -> OpsC17b
     [] OTHER -> OpsC01 \cup OpsC04 \cup OpsC08 \cup OpsC16 \cup OpsC17
 
